@@ -44,7 +44,56 @@ def isValid (pr : Prims) (payload : Bytes) (sig pk : Option Bytes) (mime : Bytes
 
 def hexEncode (b : Bytes) : Bytes := (Bytes.toHex b).toUTF8.toList
 
-/-- `NewJSONEnvelope(payload)` given the marshalled payload and the tape: (signature hex, public key hex) -/
+/-! ### UTF-8 sanitisation (fix D14)
+
+`NewJSONEnvelope` replaces the marshalled payload by `string([]rune(payload))` when it is not valid UTF-8: every
+byte that does not start a well-formed sequence becomes U+FFFD (`EF BF BD`) — what `encoding/json` does to the
+payload string when the envelope itself is serialised.  Well-formedness is Go's `unicode/utf8` table: no overlong
+forms, no surrogates, nothing above U+10FFFF. -/
+
+/-- length (1..4) of the well-formed UTF-8 sequence at the head of `b`, or 0 -/
+def utf8SeqLen : Bytes → Nat
+  | [] => 0
+  | b0 :: rest =>
+    let cont (c : UInt8) : Bool := 0x80 ≤ c && c ≤ 0xBF
+    if b0 < 0x80 then 1
+    else if 0xC2 ≤ b0 && b0 ≤ 0xDF then
+      match rest with
+      | b1 :: _ => if cont b1 then 2 else 0
+      | _ => 0
+    else if 0xE0 ≤ b0 && b0 ≤ 0xEF then
+      match rest with
+      | b1 :: b2 :: _ =>
+        let lo : UInt8 := if b0 == 0xE0 then 0xA0 else 0x80
+        let hi : UInt8 := if b0 == 0xED then 0x9F else 0xBF
+        if lo ≤ b1 && b1 ≤ hi && cont b2 then 3 else 0
+      | _ => 0
+    else if 0xF0 ≤ b0 && b0 ≤ 0xF4 then
+      match rest with
+      | b1 :: b2 :: b3 :: _ =>
+        let lo : UInt8 := if b0 == 0xF0 then 0x90 else 0x80
+        let hi : UInt8 := if b0 == 0xF4 then 0x8F else 0xBF
+        if lo ≤ b1 && b1 ≤ hi && cont b2 && cont b3 then 4 else 0
+      | _ => 0
+    else 0
+
+def sanitizeAux : Nat → Bytes → Bytes
+  | 0, _ => []
+  | fuel + 1, b =>
+    match b with
+    | [] => []
+    | _ :: rest =>
+      let n := utf8SeqLen b
+      if n == 0 then 0xEF :: 0xBF :: 0xBD :: sanitizeAux fuel rest
+      else b.take n ++ sanitizeAux fuel (b.drop n)
+
+/-- `string([]rune(s))` on bytes -/
+def sanitizeUtf8 (b : Bytes) : Bytes := sanitizeAux b.length b
+
+def validUtf8 (b : Bytes) : Bool := sanitizeUtf8 b == b
+
+/-- `NewJSONEnvelope(payload)` given the marshalled payload AS STORED IN THE ENVELOPE (i.e. after `sanitizeUtf8`,
+see `newEnvelopeRaw`) and the tape: (signature hex, public key hex) -/
 def newEnvelope (pr : Prims) (fuel : Nat) (pl : Bytes) (t : Rng.Tape) : Option (Bytes × Bytes) :=
   match Rng.generateKey t with
   | none => none
@@ -53,5 +102,11 @@ def newEnvelope (pr : Prims) (fuel : Nat) (pl : Bytes) (t : Rng.Tape) : Option (
     match Ecdsa.sign pr fuel d hash with
     | none => none
     | some (r, s) => some (hexEncode (Der.serialise r s), hexEncode (Ecdsa.serCompressed pub))
+
+/-- `NewJSONEnvelope` from what `json.Marshal(payload)` returned: (payload stored in the envelope, signature hex,
+public key hex) -/
+def newEnvelopeRaw (pr : Prims) (fuel : Nat) (raw : Bytes) (t : Rng.Tape) : Option (Bytes × Bytes × Bytes) :=
+  let pl := sanitizeUtf8 raw
+  (newEnvelope pr fuel pl t).map fun (sg, pk) => (pl, sg, pk)
 
 end GoBk.Envelope
